@@ -59,7 +59,10 @@ def schema_table(repo):
                     elif "const" in o:
                         enum = [render(o["const"])]
                     r = "yes" if on in req else ("cond" if on in cond else "no")
-                    opts.append({"name": on, "required": r, "enum": enum,
+                    rng = None
+                    if enum is None and ("minimum" in o or "maximum" in o):
+                        rng = [o.get("minimum"), o.get("maximum")]
+                    opts.append({"name": on, "required": r, "enum": enum, "range": rng,
                                  "int": o.get("type") in ("integer", "number")})
             for ty in types:
                 out.append({"kind": kind, "type": ty, "has_config": cfg is not None,
@@ -72,7 +75,7 @@ def loader_table(path):
     L = json.load(open(path))["mechs"]
     out = []
     for m in L:
-        opts = [{"name": o["name"], "required": o["required"], "enum": o.get("oneof"), "int": o["go_type"].lstrip("*") in
+        opts = [{"name": o["name"], "required": o["required"], "enum": o.get("oneof"), "range": o.get("range"), "int": o["go_type"].lstrip("*") in
                  ("int", "int64", "uint", "uint64", "int32", "uint32", "float64")} for o in m["opts"]]
         out.append({"kind": m["kind"], "type": m["type"], "has_config": m["has_config"],
                     # a conditional requirement (required_without=...) also bites when there is no config at all
@@ -86,7 +89,12 @@ def coq_table(name, tbl):
     for m in tbl:
         opts = []
         for o in m["opts"]:
-            c = "CAny" if o["enum"] is None else "(CEnum [" + "; ".join(coq_str(v) for v in o["enum"]) + "])"
+            if o["enum"] is not None:
+                c = "(CEnum [" + "; ".join(coq_str(v) for v in o["enum"]) + "])"
+            elif o.get("range") and o["range"][0] is not None and o["range"][1] is not None:
+                c = "(CRange (%d)%%Z (%d)%%Z)" % (int(o["range"][0]), int(o["range"][1]))
+            else:
+                c = "CAny"
             r = {"yes": "RYes", "no": "RNo", "cond": "RCond"}[o["required"]]
             opts.append("mk_opt %s %s %s" % (coq_str(o["name"]), r, c))
         lines.append("  mk_mech %s %s %s %s [%s]" % (coq_str(m["kind"]), coq_str(m["type"]),
@@ -142,6 +150,10 @@ def probes(stbl, ltbl):
                 names.setdefault(o["name"], {})[side] = o
         for n, os_ in sorted(names.items()):
             enums = [o["enum"] for o in os_.values() if o["enum"] is not None]
+            for o in os_.values():
+                rg = o.get("range")
+                if rg and rg[0] is not None and rg[1] is not None:
+                    enums.append([str(int(rg[0]) - 1), str(int(rg[0])), str(int(rg[1])), str(int(rg[1]) + 1)])
             if enums:
                 vals = []
                 for e in enums:
@@ -194,8 +206,8 @@ def main():
     write_if_changed(out_dir + "/SchemaTablesOk.v",
                      "(** GENERATED on every run by harness/tools/schema: the finite statement over the regenerated tables. *)\n"
                      "From HV Require Import Base.Prelude C20.SchemaModel Gen.SchemaTables.\n\n"
-                     "(** the tables agree row by row except on the recorded disagreements (C20-F1), all of which are still there *)\n"
-                     "Example tables_agree : tables_ok schema_tbl loader_tbl = true.\nProof. vm_compute. reflexivity. Qed.\n")
+                     "(** the tables agree row by row except on the recorded disagreements (C20-F1) of the groups not repaired yet *)\n"
+                     "Example tables_agree : tables_ok fixed_F1a fixed_F1b schema_tbl loader_tbl = true.\nProof. vm_compute. reflexivity. Qed.\n")
     with open(out_probes, "w") as f:
         json.dump({"probes": probes(stbl, ltbl), "schema": stbl, "loader": ltbl}, f, indent=1)
 
